@@ -50,7 +50,9 @@ CROSS = {
             ("C19", "R1c_pool_initialize", "a pool is only created at a price inside the published bounds"),
             ("C08", "R4_estimate", "range bounds are priced by the one tick-to-price function")],
     "C10": [("C13", "R5_shared_checks", "fixed and dynamic arrays must refuse the same lookups"),
-            ("C05", "R5_crossing", "an initialised tick the swap reaches is crossed, whatever else the step did")],
+            ("C05", "R5_crossing", "an initialised tick the swap reaches is crossed, whatever else the step did"),
+            ("C06", "R3_booking_side", "the tick index stored with the pool is the one the loop ended on: the next swap's search starts there"),
+            ("C03", "R7_amount_and_limit_wiring", "one pass of the swap loop per instruction: a second pass over the same arrays crosses every tick back")],
     "C11": [("C04", "R1e_mutated_accounts_are_mut", "reward growth and timestamps that are not written back stay stale"),
             ("C18", "R1_range_fields", "re-ranging a position must keep what it is owed"),
             ("C15", "R3_back_references", "a position of another pool has no share in this pool's rewards"),
